@@ -6,7 +6,8 @@ from inspect import getfullargspec
 import numpy as np
 
 from glue.core.contracts import contract, ContractsMeta
-from glue.core.coordinate_helpers import (dependent_axes, world_axis_dependencies,
+from glue.core.coordinate_helpers import (world_axis_dependencies,
+                                          pixel_axis_dependencies,
                                           default_world_coords,
                                           pixel2world_single_axis,
                                           world2pixel_single_axis)
@@ -369,7 +370,7 @@ class CoordinateComponentLink(ComponentLink):
         if pixel2world:
             self.from_needed = world_axis_dependencies(coords, index)
         else:
-            self.from_needed = dependent_axes(coords, index)
+            self.from_needed = pixel_axis_dependencies(coords, index)
         self._from_all = comp_from
 
         comp_from = [comp_from[i] for i in self.from_needed]
